@@ -25,6 +25,8 @@ enum Variant {
     Plain,
     RequestFromCreator,
     FreshnessCallback,
+    /// the creator's second call (the first rebuild) fails; an acquirer that gets the error asks again
+    CreatorFailsOnce,
 }
 
 #[derive(Clone, Copy, Debug)]
@@ -133,6 +135,9 @@ fn c20_body(cfg: Cfg, stats: StdArc<StdMutex<Stats>>) -> impl Fn() + Send + Sync
                     notifier.watch_path("tpl", true);
                 }
             }
+            if cfg.variant == Variant::CreatorFailsOnce && calls == 2 {
+                return Err(minijinja::Error::new(minijinja::ErrorKind::InvalidOperation, "the creator fails once"));
+            }
             if cfg.variant == Variant::RequestFromCreator && calls == 1 {
                 // a request that arrives while the rebuild is in progress
                 rc2.fetch_add(1, Ordering::SeqCst);
@@ -178,7 +183,12 @@ fn c20_body(cfg: Cfg, stats: StdArc<StdMutex<Stats>>) -> impl Fn() + Send + Sync
             handles.push(shuttle::thread::spawn(move || {
                 for _ in 0..cfg.acquires_each {
                     let r = returned.load(Ordering::SeqCst);
-                    let guard = reloader.acquire_env().expect("creator does not fail");
+                    // (a rebuild that failed hands out nothing; the caller asks again)
+                    let guard = match reloader.acquire_env() {
+                        Ok(g) => g,
+                        Err(_) if cfg.variant == Variant::CreatorFailsOnce => reloader.acquire_env().expect("the creator fails only once"),
+                        Err(e) => panic!("creator does not fail: {}", e),
+                    };
                     let read = |g: &autoreload::EnvironmentGuard<'_>| -> usize {
                         if cfg.fast {
                             g.get_template("t").unwrap().render(()).unwrap().parse().unwrap()
@@ -212,12 +222,16 @@ fn c20_body(cfg: Cfg, stats: StdArc<StdMutex<Stats>>) -> impl Fn() + Send + Sync
         // after everything returned: the next acquire sees the last request
         {
             let r = returned.load(Ordering::SeqCst);
-            let guard = reloader.acquire_env().unwrap();
+            let guard = match reloader.acquire_env() {
+                Ok(g) => g,
+                Err(_) if cfg.variant == Variant::CreatorFailsOnce => reloader.acquire_env().expect("the creator fails only once"),
+                Err(e) => panic!("creator does not fail: {}", e),
+            };
             let s: usize = if cfg.fast { guard.get_template("t").unwrap().render(()).unwrap().parse().unwrap() } else { guard.render_str("{{ stamp }}", ()).unwrap().parse().unwrap() };
             assert!(s >= r, "LOST RELOAD at quiescence: last returned request #{} but final environment is from version {}", r, s);
         }
         let calls = creator_calls.load(Ordering::SeqCst);
-        let allowed = 1 + cfg.requesters + events_delivered.load(Ordering::SeqCst) + usize::from(cfg.prewarm && cfg.variant == Variant::RequestFromCreator) + requests_from_creator.load(Ordering::SeqCst) + callback_trues.load(Ordering::SeqCst);
+        let allowed = usize::from(cfg.variant == Variant::CreatorFailsOnce) + 1 + cfg.requesters + events_delivered.load(Ordering::SeqCst) + usize::from(cfg.prewarm && cfg.variant == Variant::RequestFromCreator) + requests_from_creator.load(Ordering::SeqCst) + callback_trues.load(Ordering::SeqCst);
         assert!(calls <= allowed, "creator called {} times for {} requests (+{} from the creator, +{} freshness callbacks)", calls, cfg.requesters, requests_from_creator.load(Ordering::SeqCst), callback_trues.load(Ordering::SeqCst));
         if cfg.fast {
             assert!(calls == 1, "with fast reload the creator runs once, not {} times", calls);
@@ -263,6 +277,15 @@ fn configs(tier: &str) -> Vec<(Cfg, usize)> {
             }
         }
     }
+    }
+    // a rebuild that fails: the request it was made for is not used up by the failure - the next
+    // successful acquire still hands out an environment created after it (full rebuilds only: with
+    // fast reload the creator runs once)
+    for prewarm in [true, false] {
+        for (r, a, each) in [(1, 1, 1), (1, 1, 2), (1, 2, 1), (2, 1, 1), (2, 2, 1)] {
+            let bound = if tier == "thorough" { 3 } else { 5 - (r + a).max(2) };
+            v.push((Cfg { requesters: r, acquirers: a, fast: false, variant: Variant::CreatorFailsOnce, acquires_each: each, prewarm, fs_events: 0, watch: Watch::Off, kind: 0 }, bound));
+        }
     }
     // file-change notifications: threads playing notify's event loop deliver events to the handler
     // closure the real source registers; a watcher only exists once an environment was created, so
